@@ -48,7 +48,10 @@ def near_pair(rng):
     """two different byte strings that a length cap or a pre-hashing step would confuse:
     (long L, digest of L) and (P || x, P || y) with a long common prefix P"""
     import hashlib
-    c = rng.randrange(3)
+    c = rng.randrange(4)
+    if c == 3:
+        x, y = gen.near_family(rng, 2)
+        return x, y
     if c == 0:
         L = gen.gen_bytes(rng, "huge")
         d = rng.choice([hashlib.sha256(L).digest(), hashlib.sha256(L).hexdigest().encode(),
